@@ -12,10 +12,13 @@ import json
 import random
 import re
 
+from checks import connstage
 from vlib import core
 
 
 def run(ctx):
+    # the connection object both sides of the proxy use: nobody stays inside Write once a connection is gone (Conn.tla)
+    connstage.run(ctx, "C17")
     t = ctx.tier == "thorough"
     rnd = random.Random(ctx.seed)
     res = ctx.tlc_must_pass("Hostile", "Hostile_thorough.cfg" if t else "Hostile_quick.cfg", workers=4, timeout=1500, name="hostile")
